@@ -154,6 +154,7 @@ def user_regime(rng, cfg, thumb=None):
 
 def gen_user(rng):
     cfg = G.random_config(rng, allow_lpae=False, archs=(6, 7, 7, 7))
+    cfg.update(G.impdef_switches(rng))
     devices = G.std_devices()
     G.set_data(devices[2], 0x3C0, bytes(rng.getrandbits(8) for _ in range(0x80)))
     G.set_data(devices[2], 0x800, bytes(rng.getrandbits(8) for _ in range(0x100)))
